@@ -85,11 +85,20 @@ class Rig:
         self.app.frames[FRAME_ID] = self.spy
         self.pin_on = pin_on
         self.logs = []
+        self.clock = None  # a fixed value for time.time() during requests (None: the real clock)
 
     def cookie_value(self, kind):
         from werkzeug.debug import PIN_TIME, hash_pin
 
-        now = int(time.time())
+        now = int(time.time()) if self.clock is None else int(self.clock)
+        if kind == "edge-valid":  # the oldest timestamp that is still inside PIN_TIME
+            return f"{now - PIN_TIME + 1}|{hash_pin(PIN)}"
+        if kind == "edge-expired":  # one second older
+            return f"{now - PIN_TIME}|{hash_pin(PIN)}"
+        if kind == "badts":
+            return f"abc|{hash_pin(PIN)}"
+        if kind == "empty":
+            return ""
         if kind == "valid":
             return f"{now}|{hash_pin(PIN)}"
         if kind == "expired":
@@ -100,7 +109,7 @@ class Rig:
             return "not-a-cookie"
         return None
 
-    def request(self, path, query, host, cookie_kind, cookie_raw=None, patch=True):
+    def request(self, path, query, host, cookie_kind, cookie_raw=None, patch=True, method="GET"):
         """returns dict(status, body, eval_calls, inner_ran, logs, set_cookie); `cookie_raw` = a cookie
         value to present as is (one the server issued earlier), overriding `cookie_kind`.
         `patch=False`: time.sleep / _log are left as the caller arranged them (concurrent use: the
@@ -108,7 +117,7 @@ class Rig:
         from werkzeug import debug as debug_mod
         from werkzeug.test import create_environ
 
-        environ = create_environ(path, query_string=query)
+        environ = create_environ(path, query_string=query, method=method)
         if host is None:
             environ.pop("HTTP_HOST", None)
         else:
@@ -134,7 +143,12 @@ class Rig:
                 if hasattr(it, "close"):
                     it.close()
 
-        if patch:
+        if patch and self.clock is not None:
+            clock = self.clock
+            with mock.patch.object(time, "sleep", lambda s: None), mock.patch.object(time, "time", lambda: clock), \
+                    mock.patch.object(debug_mod, "_log", lambda *a, **k: logs.append(a)):
+                body = run()
+        elif patch:
             with mock.patch.object(time, "sleep", lambda s: None), mock.patch.object(debug_mod, "_log", lambda *a, **k: logs.append(a)):
                 body = run()
         else:
@@ -161,8 +175,9 @@ class Rig:
 
     def build_query(self, cmd, secret, frame, extra=None):
         q = {}
-        sec = {"right": self.app.secret, "wrong": "not-the-secret", "absent": None}[secret]
-        frm = {"known": FRAME_ID, "unknown": 777}[frame]
+        sec = {"right": self.app.secret, "wrong": "not-the-secret", "absent": None, "upper": self.app.secret.swapcase(),
+               "prefix": self.app.secret[:-1], "empty": ""}[secret]
+        frm = {"known": FRAME_ID, "unknown": 777, "missing": None, "nonint": "4242x"}[frame]
         path = "/"
         if cmd == "console":
             path = "/console"
@@ -170,7 +185,8 @@ class Rig:
             pass
         else:
             q["__debugger__"] = "yes"
-            q["frm"] = str(frm)
+            if frm is not None:
+                q["frm"] = str(frm)
             if cmd == "eval":
                 q["cmd"] = "1+1"
             elif cmd == "pinauth-right":
@@ -403,3 +419,218 @@ def rows : List Nat := {lean_list(packed, 4)}
 end Wz.Gen.Debugger
 """
     return write("Debugger", body, "src/werkzeug/debug/__init__.py (DebuggedApplication), src/werkzeug/sansio/utils.py (host_is_trusted)")
+
+
+# --------------------------------------------------------------------------
+# the widened product: refinements of the secret / cookie / frame-id / Host dimensions, a fixed clock
+
+W_CMDS = ["eval", "console", "pinauth-right", "pinauth-wrong", "printpin", "resource", "nocmd"]
+W_SECRETS = ["right", "wrong", "absent", "upper", "prefix", "empty"]  # upper = case-swapped, prefix = last character missing
+# (Host, class by the property text: T listed name / true subdomain, U never acceptable, E either)
+W_HOSTS = [("localhost:5000", "T"), ("sub.localhost.", "E"), ("LOCALHOST", "E"), ("[::1]:5000", "U"), ("evil.localhost.evil.com", "U"), (None, "U")]
+W_COOKIES = ["valid", "edge-valid", "edge-expired", "wronghash", "malformed", "badts", "empty", "absent"]
+W_FRAMES = ["known", "unknown", "missing", "nonint"]
+W_CLOCK = 2_000_000_000.5  # time.time() during every request of the wide table (fractional on purpose)
+
+# trusted_hosts customised x request method (everything else passes the gates)
+T_CMDS = W_CMDS
+T_HOSTS = ["localhost", "[::1]:5000", "sub.example.com", "evil.com", None, "Example.COM:80"]
+T_TRUSTED = [None, ["[::1]", ".example.com"], []]  # None = the default list
+T_METHODS = ["GET", "POST"]
+
+
+def observe_wide(rigs, cmd, secret, host, cookie, frame, evalex, pin_on):
+    rig = rigs[(evalex, pin_on)]
+    rig.app._failed_pin_auth.value = 0
+    path, q = rig.build_query(cmd, secret, frame)
+    try:
+        return classify(rig.request(path, q, host, cookie))
+    except Exception:
+        return OUT_ODD
+
+
+def debugger_structure():
+    """more facts read off the AST of debug/__init__.py (no execution); unknown shapes give False / 0 / ''"""
+    import ast
+    import os
+
+    from extract_lib import REPO
+
+    tree = ast.parse(open(os.path.join(REPO, "src", "werkzeug", "debug", "__init__.py")).read())
+    u = ast.unparse
+    cls = next(n for n in tree.body if isinstance(n, ast.ClassDef) and n.name == "DebuggedApplication")
+    fn = {n.name: n for n in cls.body if isinstance(n, ast.FunctionDef)}
+    f = {"pinTimeExpr": "", "hashPinExpr": "", "expiryTest": "", "cookieSplit": "", "hashTest": "", "tsParse": "", "pinCompare": "", "delayExpr": "",
+         "secretTests": [], "hostGateFirst": [], "issuedCookie": "", "cookieFlags": [], "callTests": [], "hostTrustExpr": ""}
+    for n in tree.body:
+        if isinstance(n, ast.Assign) and u(n.targets[0]) == "PIN_TIME":
+            f["pinTimeExpr"] = u(n.value)
+        if isinstance(n, ast.FunctionDef) and n.name == "hash_pin":
+            f["hashPinExpr"] = u(n.body[-1].value) if isinstance(n.body[-1], ast.Return) else ""
+    cpt = fn.get("check_pin_trust")
+    if cpt is not None:
+        f["expiryTest"] = u(cpt.body[-1].value) if isinstance(cpt.body[-1], ast.Return) else ""
+        f["cookieSplit"] = next((u(n) for n in ast.walk(cpt) if isinstance(n, ast.Assign) and "split" in u(n.value)), "")
+        f["hashTest"] = next((u(n.test) for n in ast.walk(cpt) if isinstance(n, ast.If) and "hash_pin" in u(n.test)), "")
+        f["tsParse"] = next((u(n) for n in ast.walk(cpt) if isinstance(n, ast.Assign) and u(n.targets[0]) == "ts"), "")
+    pa = fn.get("pin_auth")
+    if pa is not None:
+        f["pinCompare"] = next((u(n.test) for n in ast.walk(pa) if isinstance(n, ast.If) and "entered_pin" in u(n.test)), "")
+        sc = [n for n in ast.walk(pa) if isinstance(n, ast.Call) and u(n.func) == "rv.set_cookie"]
+        if len(sc) == 1:
+            f["issuedCookie"] = u(sc[0].args[1]) if len(sc[0].args) > 1 else ""
+            f["cookieFlags"] = sorted(f"{k.arg}={u(k.value)}" for k in sc[0].keywords)
+    fp = fn.get("_fail_pin_auth")
+    if fp is not None:
+        sl = [n for n in ast.walk(fp) if isinstance(n, ast.Call) and u(n.func) == "time.sleep"]
+        f["delayExpr"] = u(sl[0].args[0]) if len(sl) == 1 else ""
+    call = fn.get("__call__")
+    if call is not None:
+        f["callTests"] = [u(n.test) for n in ast.walk(call) if isinstance(n, ast.If)]
+        f["secretTests"] = sorted(u(n) for n in ast.walk(call) if isinstance(n, ast.Compare) and "secret" in u(n))
+    for name in ("execute_command", "display_console", "pin_auth", "log_pin_request"):
+        g = fn.get(name)
+        body = [s_ for s_ in (g.body if g else []) if not (isinstance(s_, ast.Expr) and isinstance(s_.value, ast.Constant))]
+        ok = bool(body) and isinstance(body[0], ast.If) and u(body[0].test) == "not self.check_host_trust(request.environ)" \
+            and len(body[0].body) == 1 and u(body[0].body[0]) == "return SecurityError()"
+        if ok:
+            f["hostGateFirst"].append(name)
+    ch = fn.get("check_host_trust")
+    if ch is not None and isinstance(ch.body[-1], ast.Return):
+        f["hostTrustExpr"] = u(ch.body[-1].value)
+    return f
+
+
+@generator("DebuggerWide")
+def gen_debugger_wide():
+    from extract_lib import lean_str
+    from werkzeug.debug import PIN_TIME, hash_pin
+
+    facts = debugger_structure()
+
+    def lstr(x):
+        return "[" + ", ".join(f"Char.ofNat {ord(c)}" for c in x) + "]"
+
+    def llist(xs):
+        return "[" + ", ".join(lstr(x) for x in xs) + "]"
+
+    rigs = {}
+    for evalex in BOOLS:
+        for pin_on in BOOLS:
+            r = Rig(evalex, pin_on)
+            r.clock = W_CLOCK
+            rigs[(evalex, pin_on)] = r
+    packed = []
+    rowlen = len(W_COOKIES) * len(W_FRAMES) * 4
+    for cmd in W_CMDS:
+        for secret in W_SECRETS:
+            for host, _ in W_HOSTS:
+                digits = []
+                for cookie in W_COOKIES:
+                    for frame in W_FRAMES:
+                        for evalex in BOOLS:
+                            for pin_on in BOOLS:
+                                digits.append(min(observe_wide(rigs, cmd, secret, host, cookie, frame, evalex, pin_on), 15))
+                packed.append("0x" + "".join("%x" % d for d in reversed(digits)))
+    trust_rows = []
+    for ci, cmd in enumerate(T_CMDS):
+        for hi, host in enumerate(T_HOSTS):
+            for ti, trusted in enumerate(T_TRUSTED):
+                for mi, method in enumerate(T_METHODS):
+                    for pin_on in BOOLS:
+                        rig = Rig(True, pin_on, trusted_hosts=trusted)
+                        path, q = rig.build_query(cmd, "right", "known")
+                        try:
+                            out = classify(rig.request(path, q, host, "valid", method=method))
+                        except Exception:
+                            out = OUT_ODD
+                        trust_rows.append(f"({ci}, {hi}, {ti}, {mi}, {lean_bool(pin_on)}, {min(out, 15)})")
+    default_trusted = Rig(False, False).app.trusted_hosts
+
+    # the cookie values the rig presents, with the two hash texts replaced by the symbols R (hash of the
+    # current PIN) and W (hash of another PIN)
+    crig = Rig(False, True)
+    crig.clock = W_CLOCK
+    right, wrong = hash_pin(PIN), hash_pin("000-000-000")
+    ctexts = []
+    for kind in W_COOKIES:
+        v = crig.cookie_value(kind)
+        ctexts.append("none" if v is None else "(some " + lstr(v.replace(right, "R").replace(wrong, "W")) + ")")
+
+    def sl(xs):
+        return "[" + ", ".join(lean_str(x) for x in xs) + "]"
+
+    body = f"""namespace Wz.Gen.DebuggerWide
+
+/-- `werkzeug.debug.PIN_TIME` -/
+def pinTime : Nat := {int(PIN_TIME)}
+
+/-- `floor(time.time())` during the requests of the wide table -/
+def clockFloor : Nat := {int(W_CLOCK)}
+
+/-- the PIN cookie values presented (`none` = no cookie), the hash of the current PIN written `R`, the
+hash of another PIN `W` -/
+def cookieTexts : List (Option (List Char)) := [{", ".join(ctexts)}]
+
+/-! facts read off the AST of debug/__init__.py (tools/gen/c20.py: debugger_structure) -/
+
+def pinTimeExpr : String := {lean_str(facts["pinTimeExpr"])}
+/-- the expression `hash_pin` returns -/
+def hashPinExpr : String := {lean_str(facts["hashPinExpr"])}
+/-- `check_pin_trust`: how the cookie is split, how the timestamp is read, the hash test, the final expiry test -/
+def cookieSplit : String := {lean_str(facts["cookieSplit"])}
+def tsParse : String := {lean_str(facts["tsParse"])}
+def hashTest : String := {lean_str(facts["hashTest"])}
+def expiryTest : String := {lean_str(facts["expiryTest"])}
+/-- `pin_auth`: the comparison with the entered PIN, the value and flags of the cookie it issues -/
+def pinCompare : String := {lean_str(facts["pinCompare"])}
+def issuedCookie : String := {lean_str(facts["issuedCookie"])}
+def cookieFlags : List String := {sl(facts["cookieFlags"])}
+/-- `_fail_pin_auth`: the argument of its `time.sleep` -/
+def delayExpr : String := {lean_str(facts["delayExpr"])}
+/-- `__call__`: the tests of its `if` / `elif` chain in source order, and every comparison that mentions the secret -/
+def callTests : List String := {sl(facts["callTests"])}
+def secretTests : List String := {sl(facts["secretTests"])}
+/-- the handlers whose first statement is `if not self.check_host_trust(request.environ): return SecurityError()` -/
+def hostGateFirst : List String := {sl(facts["hostGateFirst"])}
+/-- what `check_host_trust` returns -/
+def hostTrustExpr : String := {lean_str(facts["hostTrustExpr"])}
+
+/-- dimensions in nesting order: command {W_CMDS}, secret {W_SECRETS} (upper = the secret with its letter
+case swapped, prefix = without its last character), Host {[h for h, _ in W_HOSTS]}, PIN cookie {W_COOKIES}
+(edge-valid: timestamp `floor(now) - PIN_TIME + 1`, edge-expired: `floor(now) - PIN_TIME`; `time.time()` fixed at
+{W_CLOCK}), frame id {W_FRAMES}, evalex [on, off], pin [on, off] -/
+def nCmd : Nat := {len(W_CMDS)}
+def nSec : Nat := {len(W_SECRETS)}
+def nHost : Nat := {len(W_HOSTS)}
+def nCookie : Nat := {len(W_COOKIES)}
+def nFrame : Nat := {len(W_FRAMES)}
+def rowLen : Nat := {rowlen}
+def nRows : Nat := {len(packed)}
+
+/-- class of each Host by the property text: 0 = listed name / true subdomain, 1 = must never be accepted,
+2 = either verdict (letter case, trailing dot) -/
+def hostClasses : List Nat := [{", ".join(str("TUE".index(k)) for _, k in W_HOSTS)}]
+
+/-- Host header texts (`none` = no Host header) -/
+def hostTexts : List (Option (List Char)) := [{", ".join("none" if h is None else "(some " + lstr(h) + ")" for h, _ in W_HOSTS)}]
+
+/-- `DebuggedApplication.trusted_hosts` default -/
+def defaultTrusted : List (List Char) := {llist(default_trusted)}
+
+/-- observed outcome of the real `DebuggedApplication.__call__` at every point, packed {rowlen} points per
+number as hex digits (least significant digit = first point; codes as in `Gen.Debugger.rows`) -/
+def rows : List Nat := {lean_list(packed, 1)}
+
+/-! trusted_hosts customised x request method: right secret, valid cookie, known frame, evalex on -/
+
+/-- Host header texts of the second table -/
+def tHosts : List (Option (List Char)) := [{", ".join("none" if h is None else "(some " + lstr(h) + ")" for h in T_HOSTS)}]
+/-- `app.trusted_hosts` settings: the default, a custom list, the empty list -/
+def tTrusted : List (List (List Char)) := [{llist(default_trusted)}, {llist(T_TRUSTED[1])}, []]
+/-- (command index, Host index, trusted_hosts index, method index {T_METHODS}, pin on, observed outcome) -/
+def trustRows : List (Nat × Nat × Nat × Nat × Bool × Nat) := {lean_list(trust_rows, 6)}
+
+end Wz.Gen.DebuggerWide
+"""
+    return write("DebuggerWide", body, "src/werkzeug/debug/__init__.py (DebuggedApplication)")
